@@ -879,6 +879,11 @@ class Message(ABC):
                     value._serialized_on_wire = True
 
                 if meta.group:
+                    previous = group_current[meta.group]
+                    if previous is not None:
+                        # Several members of a one-of were given: the last one
+                        # wins and the others are unset, as with assignment.
+                        super().__setattr__(previous, PLACEHOLDER)
                     # This was set, so make it the selected value of the one-of.
                     group_current[meta.group] = field_name
 
